@@ -8,6 +8,8 @@ pub mod c04;
 pub mod c05;
 pub mod c07;
 pub mod c15;
+pub mod c16;
+pub mod c17;
 pub mod c19;
 pub mod c20;
 
@@ -20,6 +22,8 @@ pub fn dispatch(id: &str, tier: Tier, seed: u64, _sub: Option<&str>) -> i32 {
         "C05" => c05::run(tier, seed),
         "C07" => c07::run(tier, seed),
         "C15" => c15::run(tier, seed),
+        "C16" => c16::run(tier, seed),
+        "C17" => c17::run(tier, seed),
         "C19" => c19::run(tier, seed),
         "C20" => c20::run(tier, seed),
         _ => {
